@@ -5,4 +5,5 @@ P=$1; N=$2; shift 2
 CHECKS=${*:-$(echo $P | tr A-Z a-z)}
 D=${SEEDED_DIR:-/var/tmp/seeded}/$P/$N
 echo "##### $P/$N: $(python3 -c "import json;print(json.load(open('$D/meta.json'))['title'])" 2>/dev/null)"
-QV_WATCHDOG_SECS=${QV_WATCHDOG_SECS:-90} /verif/tools/mut.sh run $D/patch.diff $CHECKS 2>&1 | grep -aE "VIOLATION|HANG|sig=|tier=|^error|inconclusive:" | cut -c1-220
+PATCH=$D/patch.rebased.diff; [ -f $PATCH ] || PATCH=$D/patch.diff
+QV_WATCHDOG_SECS=${QV_WATCHDOG_SECS:-90} /verif/tools/mut.sh run $PATCH $CHECKS 2>&1 | grep -aE "VIOLATION|HANG|sig=|tier=|^error|inconclusive:" | cut -c1-220
